@@ -18,6 +18,8 @@ use crate::constant::qlpc::MAX_ORDER as MAX_LPC_ORDER;
 use crate::constant::qlpc::MAX_PRECISION as MAX_LPC_PRECISION;
 use crate::constant::qlpc::MAX_SHIFT as MAX_LPC_SHIFT;
 use crate::constant::qlpc::MIN_SHIFT as MIN_LPC_SHIFT;
+use crate::constant::rice::MAX_PARTITION_ORDER as MAX_RICE_PARTITION_ORDER;
+use crate::constant::rice::MAX_RICE_PARAMETER;
 use crate::constant::MAX_CHANNELS;
 use crate::error::verify_range;
 use crate::error::verify_true;
@@ -285,6 +287,33 @@ impl Verify for Residual {
             self.remainders().len() == self.block_size(),
             "must have the same length as the block size"
         )?;
+
+        verify_range!(
+            "partition_order",
+            self.partition_order(),
+            ..=MAX_RICE_PARTITION_ORDER
+        )?;
+        let partition_count = 1usize << self.partition_order();
+        verify_true!(
+            "rice_params.len",
+            self.rice_params().len() == partition_count,
+            "must be identical with the number of partitions"
+        )?;
+        for (p, rice_p) in self.rice_params().iter().enumerate() {
+            verify_range!("rice_params[{p}]", *rice_p as usize, ..=MAX_RICE_PARAMETER)?;
+        }
+        let partition_len = self.block_size() / partition_count;
+        verify_true!(
+            "block_size",
+            partition_len >= 1 && partition_len * partition_count == self.block_size(),
+            "must be a non-zero multiple of the number of partitions"
+        )?;
+        verify_true!(
+            "warmup_length",
+            self.warmup_length() <= partition_len,
+            "must not exceed the length of a partition"
+        )?;
+
         for t in 0..self.warmup_length() {
             verify_true!(
                 "quotients[{t}]",
@@ -298,8 +327,6 @@ impl Verify for Residual {
             )?;
         }
 
-        let partition_count = 1 << self.partition_order();
-        let partition_len = self.block_size() / partition_count;
         for t in 0..self.block_size() {
             let rice_p = self.rice_params()[t / partition_len];
             verify_range!("remainders[{t}]", self.remainders()[t], ..(1 << rice_p))?;
